@@ -76,6 +76,12 @@ def build_network(net):
     elif net["kind"] in ("caltech", "jpl", "office001"):
         from acnportal.acnsim.network import sites
         f = {"caltech": sites.caltech_acn, "jpl": sites.jpl_acn, "office001": sites.office001_acn}[net["kind"]]
+        if net.get("site_alias") and net["kind"] == "caltech":
+            # the older spelling of the Caltech factory, kept by the library for backward compatibility (it prints a notice)
+            import contextlib
+            import io
+            with contextlib.redirect_stdout(io.StringIO()):
+                return sites.CaltechACN(**net.get("site_kwargs", {}))
         return f(**net.get("site_kwargs", {}))
     else:
         raise ValueError(net["kind"])
